@@ -10,10 +10,14 @@ ops:
 * `cfg <prefix-hex> <minLen> <maxLen>`            address configuration of the running app
 * `spaces <name>…`                                  the store spaces the gov keeper knows
 * `bech <str-hex>`                                  `sdk.AccAddressFromBech32`       → `ok:<bytes-hex>` | `err`
+* `eip55 <str-hex>`                                 environment: the string is an EIP-55 spelling (Keccak not modelled)
+* `parse <str-hex>`                                 `fxtypes.ParseAddress`           → `ok:<bytes-hex>` | `err`
+* `evm20 <str-hex>`                                 `common.BytesToAddress(addr)` with `addr, _ := sdk.AccAddressFromBech32(s)` → `<20 bytes hex>`
 * `fold <a-hex> <b-hex>`                            `strings.EqualFold`             → `true` | `false`
 * `call <msg> <gov-hex> <auth-hex> <payloadOk> <chain> <govOk> <non-empty list fields>`   one routed message → the stage it ends in
 * `hcall <type> <msg> <gov-hex> <auth-hex> <chain> <govOk> <non-empty list fields>`   the method serving the message on a value of that concrete type, called directly
 * `tx|authz|gprop <msg> <gov-hex> <auth-hex> <signer/grantee bytes hex or -> <payloadOk> <chain> <govOk> <lists>`   the message inside a signed transaction / a MsgExec / a passed proposal
+* `blk <gov-hex> t <msg> <auth-hex> <signer bytes hex> <payloadOk> <chain> <govOk> <lists> t …`   several signed transactions in ONE block (FinalizeBlock + Commit) → the stage of each
 * `dcall <type> <method> <gov-hex> <auth-hex>`         a dependency handler (SDK / IBC / ethermint) called directly
 * `casreset`                                        empty scratch stores
 * `cas <gov-hex> <auth-hex> <space:key:old:new>…`   one MsgUpdateStore through its branch
@@ -22,7 +26,7 @@ ops:
 open FxVerif FxVerif.Util FxVerif.Gen FxVerif.Model.C16
 
 structure St where
-  cfg : AddrCfg := ⟨strOf "cosmos", 1, 255⟩
+  cfg : AddrCfg := { pref := strOf "cosmos", minLen := 1, maxLen := 255 }
   spaces : List String := []
   stores : Stores := []
 
@@ -33,7 +37,8 @@ def unhexS (w : String) : Option Str := (unhexStr w).map toStr
 def mkEnv (cfg : AddrCfg) (gov : Str) (lists : List String := []) (good : Bool := true) : Env :=
   { cfg := cfg, gov := gov, modAddr := fun _ => [], field := fun _ => [], otherS := fun _ => [],
     otherB := fun _ => false, callB := fun _ => false, otherH := fun _ => none,
-    listNonEmpty := fun f => lists.contains f, payloadGood := good, clob := fun _ => none }
+    listNonEmpty := fun f => lists.contains f, payloadGood := good, clob := fun _ => none,
+    stateModAddr := fun _ => gov }  -- the x/auth state holds the module address for the governance account (monitored)
 
 /-- anything after a guard "takes effect": the work changes the state and reports success -/
 def world (routeOk : Bool) : World Nat :=
@@ -72,12 +77,38 @@ partial def parseMsgs (ws : List String) : Option (List (Str × List Entry)) :=
     | _, _, _ => none
   | _ => none
 
+/-- `t <msg> <auth> <signer> <pOk> <chain> <govOk> <lists>`… → the block's transactions, given the governance string -/
+def parseBlock (st : St) : List String → Option (Str → List (BlockTx Nat))
+  | [] => some fun _ => []
+  | "t" :: msg :: authH :: whoH :: pOk :: chain :: govOk :: lists :: rest =>
+    match routeOf C16Sem.services C16Sem.registrations msg, unhexS authH, unhex whoH, parseBlock st rest with
+    | some (T, m), some auth, some who, some more =>
+      some fun gov =>
+        { env := mkEnv st.cfg gov (if lists == "-" then [] else lists.splitOn ",") (govOk == "1"),
+          W := world (C16Sem.routes.contains chain), T := T, m := m, msg := msg, auth := auth,
+          payloadOk := pOk == "1", signer := who } :: more gov
+    | _, _, _, _ => none
+  | _ => none
+
 def step (st : St) (line : String) : St × String :=
   match words line with
   | "reset" :: _ => ({ st with stores := [] }, "ok")
   | ["cfg", p, lo, hi] =>
     match unhexS p with
-    | some p => ({ st with cfg := ⟨p, lo.toNat!, hi.toNat!⟩ }, "ok")
+    | some p => ({ st with cfg := { st.cfg with pref := p, minLen := lo.toNat!, maxLen := hi.toNat! } }, "ok")
+    | none => (st, "bad-op")
+  | ["eip55", h] =>
+    -- environment: this string is the EIP-55 spelling of a 0x hex address (Keccak is not modelled)
+    match unhexS h with
+    | some x => let old := st.cfg.eip55; ({ st with cfg := { st.cfg with eip55 := fun s => s == x || old s } }, "ok")
+    | none => (st, "bad-op")
+  | ["parse", h] =>
+    match unhexS h with
+    | some s => (st, match parseAddress st.cfg s with | some bz => "ok:" ++ hex bz | none => "err")
+    | none => (st, "bad-op")
+  | ["evm20", h] =>
+    match unhexS h with
+    | some s => (st, hex (decodeOr st.cfg .evm20 s))
     | none => (st, "bad-op")
   | "spaces" :: names => ({ st with spaces := names }, "ok")
   | ["casreset"] => ({ st with stores := [] }, "ok")
@@ -135,6 +166,19 @@ def step (st : St) (line : String) : St × String :=
       let fs := ms.map fun (a, es) => updMsg st gov a es
       let (r, S') := runProposalWith C16Sem.proposalExec fs st.stores
       ({ st with stores := S' }, (if r == .ok then "passed " else "failed ") ++ showStores S')
+    | _, _ => (st, "bad-op")
+  | "blk" :: govH :: ws =>
+    -- a whole block: `t <msg> <auth-hex> <signer bytes hex> <payloadOk> <chain> <govOk> <lists>` per transaction
+    match unhexS govH, parseBlock st ws with
+    | some gov, some mk =>
+      let (rs, _) := blockRun prog C16Sem.msgInfos (mk gov) 0
+      (st, " ".intercalate (rs.map fun r => match r with
+        | (.basic, _) => "rejected:basic"
+        | (.ante, _) => "rejected:ante"
+        | (.authz, _) => "rejected:authz"
+        | (.submit, _) => "rejected:submit"
+        | (.msgs, .err) => "rejected:signer"
+        | (.msgs, .ok) => "past-guard"))
     | _, _ => (st, "bad-op")
   | [kind, msg, govH, authH, whoH, pOk, chain, govOk, lists] =>
     -- `tx` / `authz` / `gprop`: a privileged message inside a signed transaction, inside a MsgExec, inside a proposal
